@@ -75,6 +75,10 @@ StmtFaults == {
   <<"redeclare", "for-header", <<SFor(SVar("i", Num(0)), Bin("<", Id("i"), Num(2)), Asg("i", Bin("+", Id("i"), Num(1))), SBlock(<<SVar("x", Num(1)), SVar("x", Num(2))>> \o After))>> \o After>>,
   <<"redeclare", "varlist", <<SVarList(<<SVar("m", Num(1)), SVar("m", Num(2)), SVar("n", InputE)>>)>> \o After>>,
   <<"redeclare", "while-true", <<SWhile(Lit(VBool(TRUE)), SBlock(<<SVar("x", Num(1)), SVar("x", Num(2))>> \o After))>> \o After>>,
+  <<"redeclare-nil", "top", <<SVar("u", None), SVar("u", Num(5))>> \o After>>,
+  <<"redeclare-nil", "explicit-nil", <<SVar("u", Lit(VNil)), T("declared"), SVar("u", Num(5))>> \o After>>,
+  <<"redeclare-nil", "nil-from-call", <<SFun("nothing", <<>>, <<>>), SVar("u", Call(Id("nothing"), <<>>)), SVar("u", None)>> \o After>>,
+  <<"redeclare-nil", "param", <<SFun("h", <<"p">>, <<SVar("p", Num(2))>> \o After), SExpr(Call(Id("h"), <<Lit(VNil)>>))>> \o After>>,
   <<"stray-break", "top", <<SBreak>> \o After>>, <<"stray-continue", "top", <<SContinue>> \o After>>, <<"stray-return", "top", <<SReturn(Num(1))>> \o After>>,
   <<"stray-break", "block", <<SBlock(<<T("b"), SBreak>> \o After)>> \o After>>,
   <<"stray-continue", "if-arm", <<SIf(Num(1), SBlock(<<SContinue>> \o After), None)>> \o After>>,
